@@ -195,8 +195,8 @@ def sln_adjoint(mat, inv=None, **kwargs):
     if not {"like", "dtype", "base_ring"} & set(kwargs):
         # the default "like" further down is the conjugation *function*,
         # which makes an object-dtype array; take the type of the
-        # matrices instead (inv is inexact also for integer input)
-        kwargs["like"] = inv
+        # products mat @ M @ inv which get stored in the result instead
+        kwargs["like"] = mat @ inv
 
     return sln_linear_action(
         lambda M: mat @ M @ inv,
@@ -210,7 +210,7 @@ def gln_adjoint(mat, inv=None, **kwargs):
 
     if not {"like", "dtype", "base_ring"} & set(kwargs):
         # see sln_adjoint
-        kwargs["like"] = inv
+        kwargs["like"] = mat @ inv
 
     return linear_matrix_action(
         lambda M: mat @ M @ inv,
